@@ -4,6 +4,8 @@
 -/
 import NPModel.Refine.FrameLemmas
 import NPModel.Refine.Samples
+import NPModel.Refine.ReduceRows
+import NPModel.Refine.SamplesFrame
 namespace NP.C10
 open NP
 variable {α : Type}
@@ -64,5 +66,38 @@ theorem reduce_without_columns_refused (F : NFrame α) (d : α) : F.reduceCalls 
 /-- non-vacuity: the sample chunk, field `a`, row 0 (a slice into a larger buffer) -/
 example : (Samples.s1.rowAt 0).map (fun t => (t.find? (fun p => p.1 == "a")).map (·.2)) = some (some [1, 2]) ∧
     (Samples.s1.kid? "a").map (fun k => (k.list.rows.getD 0 none).getD []) = some [1, 2] := by decide
+
+/-- **`reduce`, call by call, through the implementation model**: for any non-empty list of
+    requests, each a base column (one value per row) or a field of a cleanly stored nested column
+    (`PCol.Clean`; any chunking and offsets), the call log has exactly one call per frame row, in
+    row order, and call `i` has one argument per request in request order: the base value of row
+    `i`, or the list that field has in row `i` of the element view — never another row's records,
+    never a merged or shifted window; a row without records hands over no elements. -/
+theorem reduce_hands_each_row_its_own (F : NFrame α) (cols : List (Option String × String)) (d : α)
+    (hne : cols ≠ []) (hok : ∀ col ∈ cols, reduceColOK F col) :
+    ∃ calls, F.reduceCalls cols d = .ok calls ∧ calls.length = F.index.length ∧
+      ∀ i, i < F.index.length → ∀ (j : Nat) (col : Option String × String), cols[j]? = some col →
+        ∃ a, (calls.getD i [])[j]? = some a ∧ reduceArg F col i d a :=
+  reduceCalls_rows F cols d hne hok
+
+/-- the flat values / per-row lists `iter_field_lists` yields are the field's lists in the element
+    view, for every cleanly stored column (any number of chunks) -/
+theorem iter_field_lists_of_rows (c : PCol α) (h : c.Clean) (f : String) (hf : c.ty.any (·.1 == f) = true) :
+    ∃ ls, NArr.iterFieldLists c f = .ok ls ∧ ls.map (fun r => r.getD []) = Spec.fieldLists c.rows f ∧
+      ls.length = c.len :=
+  iterFieldLists_refines c h f hf
+
+/-- non-vacuity of `reduce_hands_each_row_its_own`: the sample frame with the requests
+    `reduce(f, "x", "n.a")` (a base column and a field of a two-chunk sliced nested column) -/
+example : ∀ col ∈ [((none : Option String), "x"), (some "n", "a")], reduceColOK Samples.qframe col := by
+  intro col hcol
+  simp only [List.mem_cons, List.not_mem_nil, or_false] at hcol
+  rcases hcol with rfl | rfl
+  · exact ⟨"int64", [some (.int 1), some (.int 2), some (.int 3)], rfl, rfl⟩
+  · refine ⟨Samples.qcol, rfl, ?_, by decide, by decide⟩
+    refine ⟨by decide, by decide, by decide, ?_, by decide⟩
+    intro s hs
+    simp only [Samples.qcol, List.mem_cons, List.not_mem_nil, or_false] at hs
+    rcases hs with rfl | rfl <;> (unfold PStruct.noHidden; decide)
 
 end NP.C10
